@@ -252,7 +252,7 @@ def check_robust(R, variant, yy, nodata, llas, p, ykind):
 
 def gen_case(rng, it, robust):
     n = int(rng.choice([5, 6, 8, 12, 20, 36, 72, 120, 200])) if it % 3 else int(rng.integers(5, 201))
-    kinds = ["season", "noise", "walk", "steps", "spiky", "smallrange", "neg", "const", "linear", "flatspikes"]
+    kinds = ["season", "noise", "walk", "steps", "spiky", "smallrange", "neg", "const", "linear", "flatspikes", "flatspikes", "flatspikes"]
     kind = kinds[it % len(kinds)]
     if kind == "const":
         y = np.full(n, float(rng.integers(-5000, 5000)))
@@ -267,6 +267,8 @@ def gen_case(rng, it, robust):
     cands = [v for v in (-3000.0, -32768.0, 32767.0, 30000.0, 0.0) if not np.any(y == v)]  # never alter the series itself
     nodata = float(cands[int(rng.integers(0, len(cands)))])
     mask = S.gen_mask(rng, n, kind=None if rng.random() < 0.5 else "none", min_valid=5)
+    if kind == "flatspikes" and it % 2:
+        mask = S.gen_mask(rng, n, kind="runs", min_valid=5)  # long outages next to a collapsed residual scale
     return np.where(mask, nodata, y), nodata, kind
 
 
